@@ -1484,6 +1484,15 @@ func runC03() {
 			}
 		}
 	}
+	// arithmetic with the neutral literal: the result has the PROMOTED kind (uint8 * 1 is an int) - also after the optimizer
+	for _, k := range []string{"U8", "U16", "U32", "U", "U64", "I8", "I16", "I32", "I64", "I", "F32", "F64"} {
+		for _, s := range []string{k + " * 1", "1 * " + k, k + " / 1", k + " + 0", "0 + " + k, k + " - 0", "-(" + k + " * 1)", "(" + k + " * 1) == I", k + " * 1 * 1"} {
+			it := item{src: s, w: wU, fam: "neutral literal"}
+			if push(it) {
+				originals = append(originals, it)
+			}
+		}
+	}
 	// the SAME struct type once as a pointer sample (above: world Env) and afterwards as a VALUE sample: methods declared
 	// on the pointer receiver are members of the first and not of the second, whatever was compiled before
 	{
